@@ -1075,7 +1075,7 @@ func TestC19(t *testing.T) {
 		nops := 6 + rng.Intn(9)
 		runCase(t, reg, rng, w, c, nil, nops)
 	}
-	// the witness of known finding F19 is always generated (real time, own header type)
+	// the schedule of the former finding F19 is always generated (real time, own header type)
 	parkWitness(t, reg, w)
 	if err := w.Flush(); err != nil {
 		t.Fatal(err)
